@@ -106,7 +106,7 @@ def sort_points(text):
 # ---------------------------------------------------------------- rustc + run
 def rustc_and_run(args):
     """compile one emitted source, run it on every stdin; returns (compile_error or None, [(out, err, rc)])"""
-    src, stdins, tmp, name, tmo = args
+    src, stdins, tmp, name, tmo, terminating = args
     rs = os.path.join(tmp, name + ".rs"); exe = os.path.join(tmp, name)
     open(rs, "w", encoding="utf-8").write(src)
     lib = os.path.join(BUILD, "numlib", "release")
@@ -118,12 +118,16 @@ def rustc_and_run(args):
             if os.path.exists(f): os.unlink(f)
         return p.stderr.decode("utf-8", "replace")[-1500:], []
     res = []
-    for data in stdins:
-        try:
-            r = subprocess.run([exe], input=data.encode("utf-8"), stdout=subprocess.PIPE, stderr=subprocess.PIPE, timeout=tmo)
-            res.append((r.stdout, r.stderr, r.returncode))
-        except subprocess.TimeoutExpired as e:
-            res.append((e.stdout or b"", e.stderr or b"", "timeout"))
+    for data, term in zip(stdins, terminating):
+        # a run the definition says terminates gets a second, much longer chance before it counts as a time-out (loaded machine)
+        for limit in ((tmo, 30) if term else (tmo,)):
+            try:
+                r = subprocess.run([exe], input=data.encode("utf-8"), stdout=subprocess.PIPE, stderr=subprocess.PIPE, timeout=limit)
+                out = (r.stdout, r.stderr, r.returncode)
+                break
+            except subprocess.TimeoutExpired as e:
+                out = (e.stdout or b"", e.stderr or b"", "timeout")
+        res.append(out)
     for f in (rs, exe):
         if os.path.exists(f): os.unlink(f)
     return None, res
@@ -205,9 +209,11 @@ def main(tier, seed):
             for lvl in (0, 1, 2):
                 src = texts.get("compile %d %s" % (lvl, encs[k]))
                 if src is None: continue          # optimiser reported an encoding error: no program is emitted
-                jobs.append((src, stdins, tmp, "p%d_%d" % (k, lvl), 2)); meta.append((k, lvl, stdins))
+                jobs.append([src, stdins, tmp, "p%d_%d" % (k, lvl), 2, None]); meta.append((k, lvl, stdins))
         spec = model_exec(want_ops, spec=True, timeout=900)
         want = {o: summarize(s) for o, s in zip(want_ops, spec)}
+        for j, (k, lvl, stdins) in zip(jobs, meta):
+            j[5] = [want["one %s %s 4000" % (encs[k], enc_text(i))][2].split(" ")[0] != "cut" for i in stdins]
         # the model's reading of the emitted program (IR semantics, Prog.run) on the same inputs
         ir_ops = []
         for (k, lvl, stdins) in meta:
